@@ -21,6 +21,13 @@ REF_POOL = [
     {"title": "Direct Submission", "authors": "Doe J.", "journal": "Submitted (02-FEB-2016) Lab A", "comment": "revised"},
     {"title": "Direct Submission", "authors": "Roe R.", "journal": "Submitted (02-FEB-2016) Lab A"},
     {"title": "Golden Gate shuffling", "authors": "Engler C.", "journal": "PLoS ONE 4", "pubmed": "19436741"},
+    # references with a base span, as GenBank-parsed ones have
+    {"title": "EcoFlex", "authors": "Moore S.J.", "journal": "ACS Synth Biol 5", "pubmed": "27096716", "loc": [0, 1]},
+    {"title": "Paper nine", "authors": "Nine N.", "journal": "J Nine 9", "loc": [0, 2]},
+    {"title": "Paper ten", "authors": "Ten T.", "journal": "J Ten 10", "pubmed": "10101010"},
+    {"title": "Paper eleven", "authors": "Eleven E.", "journal": "J Eleven 11", "loc": [0, 1]},
+    {"title": "Paper twelve", "authors": "Twelve T.", "journal": "J Twelve 12"},
+    {"title": "Paper thirteen", "authors": "Thirteen T.", "journal": "J Thirteen 13", "medline": "1313"},
 ]
 
 
@@ -78,6 +85,9 @@ def feature_table(draw, n, A, L, max_feats=4, prefix="f", nrefs=0):
         if nrefs and draw(st.integers(0, 2)):
             f["cite"] = draw(st.lists(st.integers(1, nrefs), min_size=1, max_size=min(3, nrefs),
                                       unique=True))
+            if nrefs >= 10 and draw(st.booleans()):
+                f["cite"][0] = draw(st.integers(10, nrefs))
+                f["cite"] = list(dict.fromkeys(f["cite"]))
         feats.append(f)
     return feats
 
@@ -175,8 +185,10 @@ def annotated_assembly(draw, max_chain=4, max_seg=30, with_refs=False, enzyme=No
         A0 = (A - extra) % b.n          # arc in the coordinates the features are drawn in
         nrefs = 0
         if with_refs and draw(st.integers(0, 3)):
-            refs = draw(st.lists(st.integers(0, len(REF_POOL) - 1), min_size=0, max_size=5,
-                                 unique=True))
+            # mostly short lists; one in eight has 10-13 entries (two-digit indices)
+            long_list = draw(st.integers(0, 7)) == 0
+            refs = draw(st.lists(st.integers(0, len(REF_POOL) - 1), min_size=10 if long_list else 0,
+                                 max_size=13 if long_list else 5, unique=True))
             p["refs"] = refs
             nrefs = len(refs)
         p["feats"] = draw(feature_table(b.n, A0, L, prefix=b.id + "_", nrefs=nrefs))
